@@ -1976,4 +1976,53 @@ theorem parseUrlWith_host_case (idna : Str → Option Str) (sc P au H₁ H₂ re
     rw [e1, e1, parseCore_host_case idna sc P au H₁ H₂ rest hsc hs hP hPa hH₁ hH₂ hne₁ hne₂ hl h4₁ h4₂ hrest h64]
 
 
+
+/-- a bracketed IPv6 literal with a zone id `z` in the form `parse_url` returns it — address part in
+lower case, `%`, the zone id in normal form — whose zone id does not start with `25` (followed by
+more): the shape excluded by the known finding `zone-25-prefix-stripped-twice` -/
+def StableZoned (h : Str) : Prop :=
+  Url.ipv6AddrzMatch h = true ∧ lower (h.takeWhile (· != 37)) = h.takeWhile (· != 37) ∧
+  ∃ z, (h.dropWhile (· != 37)).takeWhile (· != 93) = 37 :: z ∧
+    ¬ (isPrefix [50, 53] z = true ∧ z ≠ [50, 53]) ∧ Url.NormalForm Gen.unreservedChars z
+
+theorem isPrefix_cons (c : Nat) (p s : Str) : isPrefix (c :: p) (c :: s) = isPrefix p s := by
+  simp [isPrefix]
+
+theorem normalizeHost_stable_zoned (idna : Str → Option Str) (h s : Str) (hsch : s = http ∨ s = https)
+    (hst : StableZoned h) : Url.normalizeHost idna (some h) (some s) = .ok (some h) := by
+  obtain ⟨h6, hl, z, hz, h25, hnf⟩ := hst
+  have hn : Gen.normalizableSchemes.contains (some s) = true := by
+    rcases hsch with rfl | rfl <;> decide
+  have hr : h.dropWhile (· != 37) ≠ [] := by
+    intro e; rw [e] at hz; simp at hz
+  have hne : h.isEmpty = false := by
+    cases h with
+    | nil => simp at hr
+    | cons a t => rfl
+  have hzone : ∀ {zone : Str}, zone = 37 :: z →
+      (if isPrefix Url.pct25 zone && zone != Url.pct25 then zone.drop 3 else zone.drop 1) = z := by
+    intro zone e
+    subst e
+    have hp : isPrefix Url.pct25 (37 :: z) = isPrefix [50, 53] z := isPrefix_cons 37 [50, 53] z
+    have hq : ((37 :: z) != Url.pct25) = (z != [50, 53]) := by
+      rw [Bool.eq_iff_iff]
+      simp only [Url.pct25, bne_iff_ne, ne_eq, List.cons.injEq, true_and]
+    rw [hp, hq]
+    by_cases hpre : isPrefix [50, 53] z = true
+    · have : z = [50, 53] := by
+        by_cases e : z = [50, 53]
+        · exact e
+        · exact absurd ⟨hpre, e⟩ h25
+      subst this
+      simp
+    · simp [hpre]
+  unfold Url.normalizeHost
+  simp only [hn, if_true, hne, Bool.false_eq_true, if_false, h6]
+  have hre : (h.dropWhile (· != 37)).isEmpty = false := by simpa using hr
+  simp only [hre, Bool.false_eq_true, if_false, hz, hzone rfl, hl, encode_keeps Url.encSet_unreserved hnf]
+  have e1 : [37] ++ z = (h.dropWhile (· != 37)).takeWhile (· != 93) := by rw [hz]; rfl
+  rw [List.append_assoc, List.append_assoc, ← List.append_assoc [37] z, e1, List.takeWhile_append_dropWhile,
+    List.takeWhile_append_dropWhile]
+
+
 end U3.Route
